@@ -3,21 +3,32 @@ package apph
 import (
 	"encoding/json"
 	"fmt"
+	"math/rand"
 	"os"
 	"strings"
 )
 
 type AppStats struct {
-	Histories, Blocks, Txs int
-	ByNote                 map[string]int
-	Failed, Succeeded      int
-	ValUpdateBlocks        int
-	Errors                 []string
-	Corpus                 []string
-	ForkRuns, ForkDeleted  int
-	ForkDiffs              []string
-	DistinctNontrivial     int
-	Samples                []string
+	Histories, Blocks, Txs                                                         int
+	ByNote                                                                         map[string]int
+	Failed, Succeeded                                                              int
+	ValUpdateBlocks                                                                int
+	Errors                                                                         []string
+	Corpus                                                                         []string
+	ForkRuns, ForkDeleted                                                          int
+	ForkDiffs                                                                      []string
+	ReplicaRuns, NoiseRuns, RestartRuns, Restarts                                  int
+	NoiseChecks, NoiseChecksPassed, NoiseQueries                                   int
+	ReplicaDiffs, NoiseDiffs, RestartDiffs, NoisePanics                            []string
+	MultiKeyCommits                                                                int
+	TreeOpBad, WriteOrder                                                          []string
+	CrashRuns                                                                      int
+	QueryRuns, QueryAsked, QueryRepeated, QueryMidBlock, QueryHeight0, QueryBeyond int
+	QueryBad                                                                       []string
+	CrashOutcomes                                                                  []string
+	CrashTable                                                                     map[string]int
+	DistinctNontrivial                                                             int
+	Samples                                                                        []string
 }
 
 // GenerateCases produces n histories and writes them as one Coq case file
@@ -42,6 +53,125 @@ func GenerateCases(seed int64, n, blocks int, outPath, scratch, jsonPath, profil
 	st, err := writeCases(hs, outPath, jsonPath, evals)
 	if st != nil {
 		st.Corpus = corpus
+	}
+	if err == nil && (strings.Contains(profile, "replica") || strings.Contains(profile, "noise") || strings.Contains(profile, "restart")) {
+		for i, h := range hs {
+			if h.Err != "" {
+				continue
+			}
+			if strings.Contains(profile, "replica") {
+				r, rerr := Rerun(h, scratch, fmt.Sprintf("replica-%d", i))
+				if rerr != nil {
+					return nil, rerr
+				}
+				st.ReplicaRuns++
+				for _, d := range CompareRuns(h, r, "replica") {
+					st.ReplicaDiffs = append(st.ReplicaDiffs, fmt.Sprintf("history %d: %s", i, d))
+				}
+				for _, d := range CompareTreeOps(h, r) {
+					st.ReplicaDiffs = append(st.ReplicaDiffs, fmt.Sprintf("history %d: %s", i, d))
+				}
+				bad, multi := TreeOpShape(h)
+				st.MultiKeyCommits += multi
+				for _, d := range bad {
+					st.TreeOpBad = append(st.TreeOpBad, fmt.Sprintf("history %d: %s", i, d))
+				}
+				if len(h.Obs) > 0 {
+					st.WriteOrder = h.Obs[len(h.Obs)-1].Writes
+				}
+			}
+			if strings.Contains(profile, "noise") {
+				r, ps, rerr := RerunPerturbed(h, scratch, fmt.Sprintf("noisy-%d", i), Perturb{Noise: true, NoiseSeed: seed*7919 + int64(i)})
+				if rerr != nil {
+					return nil, rerr
+				}
+				st.NoiseRuns++
+				st.NoiseChecks += ps.Checks
+				st.NoiseChecksPassed += ps.ChecksPassed
+				st.NoiseQueries += ps.Queries
+				st.NoisePanics = append(st.NoisePanics, ps.CheckPanics...)
+				st.NoisePanics = append(st.NoisePanics, ps.QueryPanics...)
+				for _, d := range CompareRuns(h, r, "noisy") {
+					st.NoiseDiffs = append(st.NoiseDiffs, fmt.Sprintf("history %d: %s", i, d))
+				}
+			}
+			if strings.Contains(profile, "restart") {
+				rs := map[int64]bool{}
+				rr := rand.New(rand.NewSource(seed*104729 + int64(i)))
+				for _, b := range h.Blocks {
+					// restart after blocks that changed the validator set or carried transactions, and some others
+					bi := int(b.Height) - 1
+					interesting := bi < len(h.Obs) && (len(h.Obs[bi].ValUpdates) > 0 || len(b.Txs) > 2)
+					if (interesting && rr.Intn(3) == 0) || rr.Intn(12) == 0 {
+						rs[b.Height] = true
+					}
+				}
+				r, ps, rerr := RerunPerturbed(h, scratch, fmt.Sprintf("restarted-%d", i), Perturb{RestartAfter: rs})
+				if rerr != nil {
+					return nil, rerr
+				}
+				st.RestartRuns++
+				st.Restarts += ps.Restarts
+				for _, d := range ps.InfoMismatch {
+					st.RestartDiffs = append(st.RestartDiffs, fmt.Sprintf("history %d: %s", i, d))
+				}
+				for _, d := range CompareRuns(h, r, "restarted") {
+					st.RestartDiffs = append(st.RestartDiffs, fmt.Sprintf("history %d: %s", i, d))
+				}
+			}
+		}
+	}
+	if err == nil && strings.Contains(profile, "queries") {
+		for i, h := range hs {
+			if h.Err != "" {
+				continue
+			}
+			qs, qerr := QueryStability(h, scratch, fmt.Sprintf("queries-%d", i), seed*31+int64(i))
+			if qerr != nil {
+				return nil, qerr
+			}
+			st.QueryRuns++
+			st.QueryAsked += qs.Asked
+			st.QueryRepeated += qs.Repeated
+			st.QueryMidBlock += qs.MidBlock
+			st.QueryHeight0 += qs.Height0
+			st.QueryBeyond += qs.Beyond
+			for _, l := range [][]string{qs.Changed, qs.Height0Wrong, qs.BeyondOK, qs.Panics} {
+				for _, d := range l {
+					st.QueryBad = append(st.QueryBad, fmt.Sprintf("history %d: %s", i, d))
+				}
+			}
+		}
+	}
+	if err == nil && strings.Contains(profile, "crash") {
+		rr := rand.New(rand.NewSource(seed*15485863 + 1))
+		for i, h := range hs {
+			if h.Err != "" || len(h.Blocks) < 4 {
+				continue
+			}
+			// two blocks per history, one of them a multiple of 10 when there is one (reward-hash record)
+			ats := []int{1 + rr.Intn(len(h.Blocks)-2)}
+			if len(h.Blocks) > 10 {
+				ats = append(ats, 9)
+			}
+			for _, at := range ats {
+				outs, cerr := CrashExperiment(h, at, scratch, fmt.Sprintf("crash-%d-%d", i, at))
+				if cerr != nil {
+					st.Errors = append(st.Errors, fmt.Sprintf("crash experiment history %d block %d: %v", i, at+1, cerr))
+					continue
+				}
+				st.CrashRuns++
+				for _, o := range outs {
+					o2 := o
+					st.CrashOutcomes = append(st.CrashOutcomes, fmt.Sprintf("history %d block %d %s => %s %s", i, o2.Block, o2.Point, o2.Outcome, o2.Detail))
+					key := o2.Point + " => " + strings.SplitN(o2.Outcome, "@", 2)[0]
+					if st.CrashTable == nil {
+						st.CrashTable = map[string]int{}
+					}
+					st.CrashTable[key]++
+				}
+			}
+		}
 	}
 	if err == nil && strings.Contains(profile, "forkdelete") {
 		for i, h := range hs {
